@@ -544,6 +544,8 @@ pub enum BorrowOp {
     DropGuard { slot: u8 },
     /// acquire guards inside catch_unwind, then panic while holding them
     PanicHolding { keys: Vec<(u8, u8, bool)> },
+    /// a typed try_fetch / try_fetch_mut issued from a destructor that runs while its thread unwinds
+    FetchWhileUnwinding { t: u8, excl: bool },
     /// start a meta-table iteration (shared or exclusive) over the registered types
     IterStart { excl: bool },
     /// one `next()` on the running iteration
@@ -784,9 +786,18 @@ impl Prop for C08 {
                             .collect(),
                     }
                 }
-                16 => BorrowOp::IterStart {
-                    excl: src.chance(8, 16),
-                },
+                16 => {
+                    if src.chance(5, 16) {
+                        BorrowOp::FetchWhileUnwinding {
+                            t,
+                            excl: src.chance(8, 16),
+                        }
+                    } else {
+                        BorrowOp::IterStart {
+                            excl: src.chance(8, 16),
+                        }
+                    }
+                }
                 17 | 18 => BorrowOp::IterNext,
                 _ => BorrowOp::IterEnd,
             };
@@ -1035,6 +1046,60 @@ impl Prop for C08 {
                         Ok(n) => return Err(bad(format!("only {} of {} available guards could be acquired", n, plan.len()))),
                     }
                     // model unchanged: unwinding released everything
+                }
+                BorrowOp::FetchWhileUnwinding { t, excl } => {
+                    // 0 = guard, 1 = None, 2 = panic
+                    let rec = std::cell::Cell::new(9u8);
+                    struct Probe<'w, 'r> {
+                        world: &'w World,
+                        t: u8,
+                        excl: bool,
+                        rec: &'r std::cell::Cell<u8>,
+                    }
+                    impl Drop for Probe<'_, '_> {
+                        fn drop(&mut self) {
+                            let (w, t, excl) = (self.world, self.t, self.excl);
+                            let r = catch_unwind(AssertUnwindSafe(|| {
+                                with_wt!(t, T, {
+                                    if excl {
+                                        w.try_fetch_mut::<T>().is_some()
+                                    } else {
+                                        w.try_fetch::<T>().is_some()
+                                    }
+                                })
+                            }));
+                            self.rec.set(match r {
+                                Ok(true) => 0,
+                                Ok(false) => 1,
+                                Err(_) => 2,
+                            });
+                        }
+                    }
+                    let _ = catch_unwind(AssertUnwindSafe(|| {
+                        let _p = Probe {
+                            world,
+                            t,
+                            excl,
+                            rec: &rec,
+                        };
+                        std::panic::panic_any(PlannedPanic);
+                    }));
+                    let want = match model.can((t, 0), excl) {
+                        None => 1,
+                        Some(true) => 0,
+                        Some(false) => 2,
+                    };
+                    if want == 2 {
+                        panics += 1;
+                    }
+                    if rec.get() != want {
+                        let name = |x: u8| ["a guard", "None", "a panic", "?"][(x as usize).min(3)];
+                        return Err(bad(format!(
+                            "a fetch issued from a destructor while the thread unwinds gave {}, the reference machine says {} (None is only for absent resources)",
+                            name(rec.get()),
+                            name(want)
+                        )));
+                    }
                 }
                 BorrowOp::IterStart { excl } => {
                     iter = if excl {
